@@ -4,7 +4,7 @@
 # usage: tools/regress_all.sh [mutants|seeded|all]
 cd "$(dirname "$0")/.."
 what=${1:-all}
-declare -A OVERRIDE=( [C01b]="C13" [C18b]="C13" [C09b]="C08" [C16c]="C02" [C18d]="C11" [C01e]="C18" [C02e]="C15" [C14e]="C15" [C03e]="C12" [C16e]="C11" [C04f]="C11" [C16f]="C02" [C13f]="C06" [C15f]="C14" [C09f]="C08" [C09g]="C17" )
+declare -A OVERRIDE=( [C01b]="C13" [C18b]="C13" [C09b]="C08" [C16c]="C02" [C18d]="C11" [C01e]="C18" [C02e]="C15" [C14e]="C15" [C03e]="C12" [C16e]="C11" [C04f]="C11" [C16f]="C02" [C13f]="C06" [C15f]="C14" [C09f]="C08" [C09g]="C17" [C06h]="C04" [C18h]="C01" [C02h]="C15" )
 if [ "$what" != seeded ]; then
   for p in mutants/C*/*.patch; do
     id=$(basename $(dirname $p))
